@@ -35,6 +35,7 @@ import Proofs.CommuteAroundMarkup
 import Proofs.CommuteAroundSuccess
 import Proofs.CommuteAroundAgain
 import Props.C01
+import Proofs.GapInner
 namespace PM.C17
 open PM
 
@@ -1714,34 +1715,238 @@ on the real `ResolvedPos` data, and the relational oracle "guard ⇒ the real co
 equal documents" on every in-gap pair with a replace or replace-around partner (seeds 0–3: no counterexample;
 seed 0: guard true on 1344 pairs, all converge; false on 859, of which 181 have a failing order).
 
-    theorem commute_succeeds_around_gap (hn : fnorm d.kids) (hsn1 : fnorm s1.content) (hsn : fnorm sl.content)
-        (hs : AroundShape f t gf gt sl ins) (h : gf < f1) (h' : t1 < gt)
-        (ha : S.apply (.replace f1 t1 s1 b1) d = .ok da)
-        (hb : S.apply (.replaceAround f t gf gt sl ins st) d = .ok db)
-        (hg : gapGuard d.kids gf gt f1 t1 s1 = true) :
-        ∃ A' R' dab, (Step.replaceAround f t gf gt sl ins st).map (Step.replace f1 t1 s1 b1).getMap = some A' ∧
-          (Step.replace f1 t1 s1 b1).map (Step.replaceAround f t gf gt sl ins st).getMap = some R' ∧
-          S.apply A' da = .ok dab ∧ S.apply R' db = .ok dab
+Proved below (`commute_succeeds_around_gap`) for replace-around steps whose slice is closed on both sides (`wrap`,
+`set_node_markup`, `set_block_type`, a `lift` of a node's whole content: hypothesis `hcl`, which also settles the caveat
+"the gap content must not sit on an open spine of the filled slice"), for valid documents and payloads, under
+`CompatTrans` (join-compatibility of node types is transitive: every bundled schema) and with the two ends of the
+inserted content pair-aligned in `db` (`hdbal`: decidable on the given documents; as in C16 `replaceKids_merge_open`).
+How: the guard puts the inner step into the content `kN` of an element node inside the gap (`gap_setup`); that node
+is found again — as a nested level — in `db` and in the gap content from their tokens (`lvl_window_toks`), so the
+rebased inner step is the same replace of `kN` (`Lvl.replaceKids_eq`) and yields the expected result `dab`; `dab` is
+valid (`C01.apply_valid` twice), and the rebased replace-around step reaches it by the target-based criterion
+`replaceKids_merged`: the gap is cut again with the node's content exchanged (`gap_slice_inner`), `Slice.insertAt`
+succeeds alike because it reads the fragment's top-level types and marks only (`insertAt_success_congr`), the
+right-hand sides are related through `d` (`rightRel_after_lvl`, `FwdFacts.rrel`).
+FULL STATEMENT (open for slices open on a side — a `lift` out of the middle of its parent): the same without `hcl`;
+needs the filled slice split as `fappend cA cB` at a top-level seam and `lcompat` for its left spine. -/
 
-NOT PROVED.  What is there: the rebased steps (`rebase_around_separated`, gap clause), convergence when all four
-applications succeed (`commute_replace_around`).  What is missing, in the order a proof would use it:
-1. `insideGap_decomp` (analogue of `insideLeft_decomp`, Proofs/CommuteSuccess.lean): the guard gives a level
-   `Lvl ty K b nd tyA (P ++ n :: R) ctx` with `n = .elem tyN aN mN kN`, `gf ≤ b + fsize P`,
-   `b + fsize P + n.size ≤ gt`, and the inner replace is `replaceKids S tyN kN g1 h1 s1 = .ok kN'` inside `n`
-   (then `da.kids = ctx (P ++ .elem tyN aN mN kN' :: R)` by `replaceKids_eq`).
-2. `sliceKids_inner_congr`: the gap of `da` at `[gf, gt + δ1)` is the gap of `d` with `n` replaced by
-   `.elem tyN aN mN kN'` at the same place (closed again) — `slice_again` does not apply, the tokens differ.
-3. **the real gap**: `insertAt_inner_congr` + `replaceKids_slice_inner_congr`: `Slice.insertAt` and `replaceKids`
-   succeed alike, with `n` exchanged for `.elem tyN aN mN kN'` in the result, when an element node strictly inside the
-   slice content — not on its open spines — has its children exchanged (same markup, normal form).  This is the
-   slice-side counterpart of `replaceKids_prefix` / `replaceKids_suffix` (which exchange the content of a *document*
-   node next to the range); nothing of the kind exists yet.  It needs "the gap content is never on the open spine of
-   the filled slice", which holds for `insert`-positions the library builds but not for every `AroundShape`
-   (`sl = <ul(li(p))>(3, _)`, `insert = 2` puts the gap in front of `p`): either a further decidable hypothesis
-   (`openStart ≤` depth of the insertion point's left neighbours) or a proof that such a step never applies.
-4. the other order: `replaceKids_eq` under `ctx' ` of `db` — the node `n` sits in `db` inside the nodes of `sl` at
-   `f + ins + (start n − gf)`, found through `replaceKids_toks`-style facts only; needs a `Lvl` for `db` built from the
-   `insertAt` / `replaceKids` results of step 3. -/
+set_option maxHeartbeats 400000 in
+/-- **a replace step strictly inside the kept gap of a replace-around step, happening inside an element node of the gap
+    content** (`gapGuard`): neither rebased step is dropped, both orders apply, and they give the same document -/
+theorem commute_succeeds_around_gap (S : Schema) (htr : CompatTrans S) (d da db : Node)
+    (f t gf gt ins f1 t1 : Nat) (sl s1 : Slice) (st b1 : Bool)
+    (hv : C01.Valid S d) (hpvA : C01.PayloadValid S d (.replaceAround f t gf gt sl ins st))
+    (hpvR : openValid S s1.openStart s1.openEnd s1.content = true)
+    (hn : fnorm d.kids = true) (hsn1 : fnorm s1.content = true) (hsn : fnorm sl.content = true)
+    (hs : AroundShape f t gf gt sl ins) (hcl : sl.openStart = 0 ∧ sl.openEnd = 0)
+    (h : gf < f1) (h' : t1 < gt)
+    (ha : S.apply (.replace f1 t1 s1 b1) d = .ok da)
+    (hb : S.apply (.replaceAround f t gf gt sl ins st) d = .ok db)
+    (hdbal : alignedAt db.kids f = true ∧ alignedAt db.kids (f + sl.toks.length + (gt - gf)) = true)
+    (hg : gapGuard d.kids gf gt f1 t1 s1 = true) :
+    ∃ A' R' dab,
+      (Step.replaceAround f t gf gt sl ins st).map (Step.replace f1 t1 s1 b1).getMap = some A' ∧
+      (Step.replace f1 t1 s1 b1).map (Step.replaceAround f t gf gt sl ins st).getMap = some R' ∧
+      S.apply A' da = .ok dab ∧ S.apply R' db = .ok dab := by
+  obtain ⟨gap, I, hgap, ho1, ho2, hinst, hb2, hio, hin, hisz, hl⟩ :=
+    around_as_replace S d db f t gf gt ins sl st hn hsn hs hb
+  obtain ⟨hwf, hins, hgo⟩ := id hs
+  have ka := apply_replace_fromReplace S d da f1 t1 s1 b1 ha
+  obtain ⟨ty, a, m, K, Ka, rfl, rfl, hrR⟩ := fromReplace_parts S d da f1 t1 s1 ka
+  obtain ⟨ty', a', m', K0, Kb, e0, rfl, hrA⟩ := fromReplace_parts S _ db f t I
+    (apply_replace_fromReplace S _ _ _ _ _ false hb2)
+  cases e0
+  simp only [Node.kids] at hn hl hdbal hg hgap
+  obtain ⟨hft1, ht1K, hwf1⟩ := replaceKids_guards S ty K f1 t1 s1 Ka hrR
+  unfold gapGuard at hg
+  obtain ⟨sN, nd, tyN, aN, mN, kN, kN', g1, h1, ctxi, A0, B0, hLi, hk, hEq, q1, q2, r1, r2, r4, r5, hA0, htokX,
+    hso, hkN⟩ := gap_setup S ty K Ka gf gt f1 t1 s1 hn h' hrR hg
+  clear hg
+  have hLK : ftoks K = A0 ++ (Tok.op tyN aN mN :: (ftoks kN ++ [Tok.cl])) ++ B0 := by
+    rw [← htokX kN, hLi.ctx_self]
+  have hLKa : ftoks Ka = A0 ++ (Tok.op tyN aN mN :: (ftoks kN' ++ [Tok.cl])) ++ B0 := by
+    rw [hEq, htokX kN']
+  have FR := fwdFacts S tyN kN kN' g1 h1 s1 hk
+  have hkN' : fnorm kN' = true := FR.norm hkN hsn1
+  have hszN := FR.size
+  clear FR htokX
+  have hWl : (Tok.op tyN aN mN :: (ftoks kN ++ [Tok.cl])).length = 2 + fsize kN := by
+    simp [ftoks_length]; omega
+  have hWl' : (Tok.op tyN aN mN :: (ftoks kN' ++ [Tok.cl])).length = 2 + fsize kN' := by
+    simp [ftoks_length]; omega
+  have hKlen : fsize K = sN + (2 + fsize kN) + B0.length := by
+    rw [← ftoks_length, hLK]; simp only [List.length_append, hWl, hA0]
+  have hKalen : fsize Ka = sN + (2 + fsize kN') + B0.length := by
+    rw [← ftoks_length, hLKa]; simp only [List.length_append, hWl', hA0]
+  rw [ftoks_length] at hl
+  -- the gap's tokens
+  have hgapW : ((ftoks K).drop gf).take (gt - gf) = A0.drop gf ++
+      (Tok.op tyN aN mN :: (ftoks kN ++ (Tok.cl :: B0.take (gt - sN - (2 + fsize kN))))) := by
+    rw [hLK, gap_window A0 _ B0 gf gt (by omega) (by rw [hWl]; omega), hWl, hA0]
+    simp [List.append_assoc]
+  -- the document after the replace-around step
+  obtain ⟨hdbL, _, hXl, hYl⟩ := apply_around_aroundL S _ _ f t gf gt sl ins st hs hb
+  simp only [Node.kids] at hdbL
+  rw [← aroundL_eq _ _ _ f gf gt t hgo (by rw [ftoks_length]; exact hl), hgapW] at hdbL
+  generalize hpreB : (ftoks K).take f ++ sl.toks.take ins ++ A0.drop gf = preB at hdbL
+  generalize hpostB : B0.take (gt - sN - (2 + fsize kN)) ++ sl.toks.drop ins ++ (ftoks K).drop t = postB
+  have hKb : ftoks Kb = preB ++ (Tok.op tyN aN mN :: (ftoks kN ++ (Tok.cl :: postB))) := by
+    rw [hdbL, ← hpreB, ← hpostB]; simp [List.append_assoc]
+  have hpreBl : preB.length = f + ins + (sN - gf) := by
+    rw [← hpreB]
+    simp only [List.length_append, List.length_take, List.length_drop, hA0, ftoks_length] at hXl ⊢
+    omega
+  have hnb : fnorm Kb = true := replaceKids_norm S ty K f t I Kb hn hin hrA
+  obtain ⟨ndb, ctxb, hLb, htokb⟩ := lvl_window_toks Kb ty tyN aN mN kN preB postB hnb hkN hKb
+  -- the rebased replace step on `db`: inside the same node
+  have hEqb := hLb.replaceKids_eq (S := S) s1 g1 h1 r1 r2 hso
+  rw [hk] at hEqb
+  simp only [Except.map] at hEqb
+  -- the gap of `da`: the gap of `d` with the node's content exchanged
+  have hgap' : sliceKids K gf gt = .ok gap := hgap
+  have hgcl : gap = ⟨gap.content, 0, 0⟩ := by cases gap; simp at ho1 ho2; simp [ho1, ho2]
+  have hgn := (sliceKids_norm K gf gt gap hn hgap').1
+  have hgT : ftoks gap.content = A0.drop gf ++ (Tok.op tyN aN mN :: (ftoks kN ++
+      (Tok.cl :: B0.take (gt - sN - (2 + fsize kN))))) := by
+    rw [← Slice.toks_closed, ← hgcl, sliceKids_toks K gf gt gap hgo.2.1 (by omega) hgap', hgapW]
+  obtain ⟨ndg, ctxg, hLg, hGT⟩ := lvl_window_toks gap.content ty tyN aN mN kN _ _ hgn hkN hgT
+  have hG'n : fnorm (ctxg kN') = true := hLg.ctx_norm hgn kN' hkN'
+  have hgself : ctxg kN = gap.content := hLg.ctx_self
+  obtain ⟨lab1, lab2⟩ := hLg.ctx_labels S kN kN'
+  rw [hgself] at lab1 lab2
+  obtain ⟨I', hI'⟩ := insertAt_success_congr S sl I ins gap.content (ctxg kN') lab1 lab2 hinst
+  obtain ⟨hI'T, hI'o1, hI'o2⟩ := insertAt_toks S sl I' ins (ctxg kN') hwf hins hI'
+  have hI'n := insertAt_norm S sl I' ins (ctxg kN') hsn hG'n hI'
+  obtain ⟨hIT, _, hIo2'⟩ := insertAt_toks S sl I ins gap.content hwf hins hinst
+  clear lab1 lab2 hgself hinst
+  have FRk := fwdFacts S ty K Ka f1 t1 s1 hrR
+  have FA := fwdFacts S ty K Kb f t I hrA
+  have hna : fnorm Ka = true := FRk.norm hn hsn1
+  have hda : ftoks Ka = splice (ftoks K) f1 t1 s1.toks := FRk.toks
+  have hIo1 : I.openStart = 0 := by rw [hio]; exact hcl.1
+  have hIo2 : I.openEnd = 0 := by rw [hIo2']; exact hcl.2
+  have hI'cl : I' = ⟨I'.content, 0, 0⟩ := by
+    cases I'; simp at hI'o1 hI'o2; simp [hI'o1, hI'o2, hcl.1, hcl.2]
+  have hB0r : (B0.take (gt - sN - (2 + fsize kN))).length = gt - sN - (2 + fsize kN) := by
+    rw [List.length_take]; omega
+  have hG'sz : fsize (ctxg kN') = (sN - gf) + (2 + fsize kN') + (gt - sN - (2 + fsize kN)) := by
+    have := congrArg List.length (hGT kN')
+    simp only [List.length_append, List.length_cons, List.length_drop, ftoks_length, hA0, hB0r] at this
+    omega
+  have hItl : I.toks.length = sl.toks.length + (gt - gf) := by
+    obtain ⟨_, _, _, e1⟩ := apply_replace_splice S _ _ f t I false hb2
+    obtain ⟨e2, _⟩ := Slice.toks_length_of_wf_ex sl hwf
+    omega
+  have hI'tl : I'.toks.length + fsize kN = sl.toks.length + (gt - gf) + fsize kN' := by
+    have e1 := congrArg List.length hI'T
+    have e2 := congrArg List.length (hGT kN')
+    have e3 := congrArg List.length hIT
+    have e4 := congrArg List.length hgT
+    simp only [List.length_append, List.length_cons, ftoks_length] at e1 e2 e3 e4
+    omega
+  -- the gap is cut again
+  have hslice' : sliceKids Ka gf (f1 + s1.toks.length + (gt - t1)) = .ok ⟨ctxg kN', 0, 0⟩ :=
+    gap_slice_inner K Ka gap (ctxg kN') A0 B0 _ gf gt f1 t1 (gt - sN - (2 + fsize kN)) s1.toks hn hna hG'n hgap'
+      hLKa (by rw [hGT kN']; simp [List.append_assoc]) (by omega) (by omega) hda hft1 ht1K h h'
+      (arith_G gf sN _ _ gt f1 t1 g1 h1 _ _ q1 q2 hszN r1 r2 r4 r5 hG'sz)
+  -- validity of the expected result
+  have hvdb : C01.Valid S (.elem ty a m Kb) := C01.apply_valid S _ _ _ hv hpvA hb
+  have hRdb : S.apply (.replace (preB.length + 1 + g1) (preB.length + 1 + h1) s1 false)
+      (.elem ty a m Kb) = .ok (.elem ty a m (ctxb kN')) := by
+    simp [Schema.apply, Schema.fromReplace, Schema.replace, hEqb, Except.map]
+  have hvdab := C01.apply_valid S (.replace _ _ s1 false) _ _ hvdb hpvR hRdb
+  simp only [C01.Valid, checkNode_elem, Bool.and_eq_true] at hvdab
+  have hn2 : fnorm (ctxb kN') = true := hLb.ctx_norm hnb kN' hkN'
+  have hTeq : f1 + s1.toks.length + (t - t1) = t - fsize kN + fsize kN' :=
+    arith_T2 f1 t1 t sN g1 h1 _ _ _ q1 q2 hszN r1 r2 (by omega)
+  -- tokens
+  have htk : ftoks (ctxb kN') = (ftoks Ka).take f ++ ((Slice.mk I'.content 0 0).toks ++ (Slice.mk [] 0 0).toks)
+      ++ (ftoks Ka).drop (f1 + s1.toks.length + (t - t1)) := by
+    rw [← hI'cl, hI'T, hGT kN', hTeq, htokb kN', ← hpreB, ← hpostB, hLKa, take_pre A0 _ B0 f (by omega),
+      drop_post A0 _ B0 _ (by rw [hWl']; omega), hLK, take_pre A0 _ B0 f (by omega),
+      drop_post A0 _ B0 t (by rw [hWl]; omega), hWl, hWl', hA0,
+      show t - fsize kN + fsize kN' - sN - (2 + fsize kN') = t - sN - (2 + fsize kN) by omega]
+    simp [Slice.toks, List.append_assoc]
+  -- alignment
+  obtain ⟨alKf, alKt⟩ := replaceKids_aligned S ty K f t I Kb hrA
+  have haf : alignedAt Ka f = true :=
+    aligned_before_splice K Ka _ f1 t1 f hn hna hda (by rw [ftoks_length]; omega) (by omega) alKf
+  have hsame : ∀ i, i ≤ f → (ftoks (ctxb kN'))[i]? = (ftoks Kb)[i]? := by
+    intro i hi
+    rw [htokb kN', hKb, List.getElem?_append]
+    conv => rhs; rw [List.getElem?_append]
+    by_cases hlt : i < preB.length
+    · rw [if_pos hlt, if_pos hlt]
+    · have : i = preB.length := by omega
+      rw [if_neg hlt, if_neg hlt, this]
+      simp
+  have haf2 : alignedAt (ctxb kN') f = true :=
+    alignedAt_transfer (ctxb kN') Kb f hn2 hnb (hsame _ (Nat.sub_le _ _)).symm (hsame _ (Nat.le_refl _)).symm hdbal.1
+  clear hsame
+  -- the right-hand sides
+  have R1 : RightRel S Ka (f1 + s1.toks.length + (t - t1)) K t := by
+    have := rightRel_after_lvl S hLi (by omega) hn kN' t (by omega) (by omega) alKt
+    rw [← hEq, ← hTeq] at this
+    exact this
+  have R2 : RightRel S Kb (f + I.toks.length) K t :=
+    FA.rrel hn hin (.inl hIo1) (by rw [hItl, ← Nat.add_assoc]; exact hdbal.2)
+  have hKblen : fsize Kb = f + I.toks.length + (fsize K - t) := FA.size
+  have hinsl : ins ≤ sl.toks.length := by
+    have := hXl; simp only [List.length_take] at this; omega
+  have R3 : RightRel S (ctxb kN') (f + I.toks.length - fsize kN + fsize kN') Kb (f + I.toks.length) :=
+    rightRel_after_lvl S hLb (by omega) hnb kN' (f + I.toks.length) (by rw [hItl]; omega) (by omega)
+      (by rw [hItl, ← Nat.add_assoc]; exact hdbal.2)
+  have hR : RightRel S Ka (f1 + s1.toks.length + (t - t1)) (ctxb kN')
+      (f + (Slice.mk I'.content 0 0).toks.length + (Slice.mk ([] : List Node) 0 0).toks.length) := by
+    have := R1.trans htr (R2.symm.trans htr R3.symm)
+    rw [← hI'cl]
+    rw [hItl] at this
+    have e : f + (sl.toks.length + (gt - gf)) - fsize kN + fsize kN' =
+        f + I'.toks.length + (Slice.mk ([] : List Node) 0 0).toks.length := by
+      have e0 : (Slice.mk ([] : List Node) 0 0).toks.length = 0 := by rw [Slice.toks_closed]; rfl
+      rw [e0]; exact arith_e f _ _ _ _ hI'tl (by omega)
+    rw [← e]; exact this
+  -- depths
+  have hdb : depthAt Ka f - 0 + 0 = depthAt Ka (f1 + s1.toks.length + (t - t1)) := by
+    have d1 : depthAt Ka f = depthAt K f :=
+      depthAt_of_take_eq K Ka f (by omega) (by omega)
+        (by rw [hLKa, hLK, take_pre A0 _ B0 f (by omega), take_pre A0 _ B0 f (by omega)])
+    have d2 := R1.depth
+    have d3 := FA.depths
+    rw [hIo1, hIo2] at d3
+    omega
+  have hmerged := replaceKids_merged S ty Ka (ctxb kN') f (f1 + s1.toks.length + (t - t1)) I'.content [] 0 0
+    hna hvdab.1.1 hvdab.2 hn2 hI'n (by simp [fnorm, fnormKids, chainOk]) (Nat.zero_le _) (Nat.zero_le _)
+    (by omega) (by omega) htk haf haf2 hR (Nat.zero_le _) hdb (lcompat_zero S _ _ _ _)
+  have hfr : S.fromReplace (.elem ty a m Ka) f (f1 + s1.toks.length + (t - t1)) I' =
+      .ok (.elem ty a m (ctxb kN')) := by
+    have e : (Slice.mk (fappend I'.content []) 0 0) = I' := by rw [hI'cl]; rfl
+    rw [e] at hmerged
+    simp [Schema.fromReplace, Schema.replace, hmerged, Except.map]
+  -- the rebased steps
+  obtain ⟨hs1l, _⟩ := Slice.toks_length_of_wf_ex s1 hwf1
+  obtain ⟨eA, eR⟩ := (rebase_around_separated f t gf gt ins f1 t1 sl s1 st b1 hgo hft1).2.1 h h'
+  have nT := arith_shift t t1 f1 s1.toks.length s1.size hs1l hft1 (by omega)
+  have nG := arith_shift gt t1 f1 s1.toks.length s1.size hs1l hft1 h'
+  have nF := arith_in f1 ins gf f sN g1 preB.length q1 hpreBl r4 hgo.1
+  have nF2 := arith_in t1 ins gf f sN h1 preB.length q2 hpreBl r4 hgo.1
+  rw [nT, nG] at eA
+  rw [nF, nF2] at eR
+  refine ⟨_, _, .elem ty a m (ctxb kN'), eA, eR, ?_, hRdb⟩
+  have hst : st = true →
+      contentBetween (.elem ty a m Ka) f gf = some false ∧
+      contentBetween (.elem ty a m Ka) (f1 + s1.toks.length + (gt - t1)) (f1 + s1.toks.length + (t - t1)) = some false := by
+    intro hstt
+    subst hstt
+    exact struct_checks_again (.elem ty a m K) (.elem ty a m Ka) f t gf gt f _ gf _ hn hna hgo (by simp only [Node.kids]; exact hl)
+      (by simp only [Node.kids]; omega) (by omega) (arith_e2 _ gt t t1 h' hgo.2.2) (by omega)
+      (by simp only [Node.kids]; rw [hda]
+          exact splice_window_before _ _ f1 t1 f _ (by omega) (by rw [ftoks_length]; omega))
+      (by simp only [Node.kids]; rw [hda]
+          exact splice_window_after _ _ f1 t1 gt _ hft1 (by omega) (by rw [ftoks_length]; omega))
+      (apply_replaceAround_struct S _ _ f t gf gt sl ins hb)
+  exact around_applies_of_parts S _ _ f _ gf _ sl ins st ⟨ctxg kN', 0, 0⟩ I' hslice' rfl rfl hI' hfr hst
+
 
 /-- the guard holds: in `doc(quote(p("a"), p("b")))`, lifting both paragraphs out of the quote
     (`replaceAround 0 8 1 7 ⟨[], 0, 0⟩ 0`, gap `[1, 7)`) against typing inside the second paragraph (`5 … 5`):
